@@ -35,6 +35,13 @@ def verify_F(prop):
         dt = (time.time() - t0) / max(1, len(obl))
         for name, status, detail in obl:
             out.append(Verdict(name, 'F', status, detail, dt, f'{mod}.{qual}', 'frame'))
+        try:
+            hs, hd = frame.check_hidden_state(mod, qual)
+            v = Verdict('no_state_kept_across_calls', 'F', hs, hd, 0.0, f'{mod}.{qual}', 'frame')
+            v.confirm = [qual.split('.')[-1], 'history', 'repeated', 'second call', 'cache']
+            out.append(v)
+        except Exception as e:
+            out.append(Verdict('no_state_kept_across_calls', 'F', 'undecided', f'analysis error: {type(e).__name__}: {e}', 0.0, f'{mod}.{qual}', 'frame'))
     if prop in ('C18', 'C19'):
         for name, status, detail in frame.check_reinit('bipartite_graph', 'HopcroftKarp', '__call__'):
             v = Verdict(name, 'F', status, detail, 0.0, 'bipartite_graph.HopcroftKarp.__call__', 'frame')
